@@ -244,6 +244,9 @@ def render(model, outdir):
                 ls.append(layer_text(layer, f"bracket-{g['name']}-{bi}-{ids[m['name']]}", extra))
         G.append(",\n".join(ls))
         G.append(");")
+        prod = (model["lib"].get("public.postscriptNames") or {}).get(g["name"])
+        if prod:
+            G.append(f"production = {q(prod)};")
         if c == "mark":
             G.append("subCategory = Nonspacing;")
         elif c == "ligature":
